@@ -318,24 +318,29 @@ class Simd:
         return I(-half, half - 1)
 
     def s_madd52(self, ip, fv, st, depth, t, n, a, dty):
-        # z + lo/hi 52 bits of (x * y) where x, y are taken modulo 2^52 (IFMA); precondition of the field code: x, y < 2^52
+        # z + lo/hi 52 bits of (x mod 2^52) * (y mod 2^52): taking the low 52 bits of an operand is the instruction's defined behaviour
+        # and the field code uses it on purpose for its 64-bit accumulators (paired with `>> 52` of the same value), so it is modelled,
+        # not flagged; the obligation is that the 64-bit accumulator lane does not wrap
         hi = "madd52hi" in n
         z, x, y = lanes64(a[0]), lanes64(a[1]), lanes64(a[2])
         M52 = (1 << 52) - 1
-        out, ok, okz = [], True, True
+        out, okz = [], True
         for r, p, q in zip(z, x, y):
-            if p[2] > M52 or q[2] > M52:
-                ok = False
-                p, q = I(0, M52), I(0, M52)
-            prod_hi = p[2] * q[2]
-            add = I(0, prod_hi >> 52) if hi else I(0, min(M52, prod_hi))
+            if p[2] > M52:
+                p = I(0, M52)
+            if q[2] > M52:
+                q = I(0, M52)
+            prod_lo, prod_hi = p[1] * q[1], p[2] * q[2]
+            if hi:
+                add = I(prod_lo >> 52, prod_hi >> 52)
+            else:
+                add = I(prod_lo, prod_hi) if prod_hi <= M52 else I(0, M52)
             s = r[2] + add[2]
             if s > M64:
                 okz = False
                 out.append(FULL64)
             else:
-                out.append(I(r[1], s))
-        self.lane_obl(ip, fv, t, "madd52:operands<2^52", ok, "" if ok else "an IFMA multiplicand can exceed 2^52 (its high bits would be dropped silently)")
+                out.append(I(r[1] + add[1], s))
         self.lane_obl(ip, fv, t, "madd52:accumulator", okz, "" if okz else "the 64-bit accumulator lane can wrap")
         return mk(out)
 
